@@ -3,7 +3,7 @@
    a small code naming the failed comparison.  Values are integers (the harness uses integer-valued data
    and converts). *)
 From Coq Require Import ZArith List Bool.
-From Verif Require Import Py PyExt PyCreate S_create Shape COO NpCreate Create Random RandomP Judge.
+From Verif Require Import Py PyExt PyCreate S_create Shape COO NpCreate Create Random Judge.
 Import ListNotations.
 Open Scope Z_scope.
 
@@ -85,12 +85,17 @@ Definition judge_asarray (c : asarray_case) : Z :=
    input: shape, density (dyadic), nnz;  output: None when the call raised ValueError, else
    (raw COO of the result (converted to COO for other formats), the sampler's output, observed branch
     (tag, n, N) from the instrumented module, same-seed-same-result flag)
-   0 ok | 1 raised although the generated guards pass / returned although they fail
+   0 ok | 1 raised although the request is admissible / returned although it is not
    | 2 stored count <> requested nnz (or int(elements*density)) | 3 positions not canonical
    (out of range / not strictly increasing / data length) | 4 shape, fill or data <> request / sampler output
    | 5 observed branch <> branch of the generated chain (representation) | 6 plan outside plan_okb
    | 7 two runs with the same seed differ *)
-Definition random_out := (raw * list Z * (Z * Z * Z) * bool)%type.
+Definition random_out := (raw * (Z * bool) * (Z * Z * Z) * bool)%type.
+
+(* the sampler's output: the harness' sampler returns 1..n (arange) — or floats, of which only the number is
+   compared (the harness then reports every stored value as 1) *)
+Definition sampler_output (s : Z * bool) : list Z :=
+  let '(n, ar) := s in if ar then map (fun i => i + 1) (zrange n) else map (fun _ => 1) (zrange n).
 Definition random_case := (list Z * option (Z * Z) * option Z * Z * option random_out)%type.
 
 Definition plan_args (p : plan) : Z * Z :=
@@ -102,27 +107,45 @@ Definition plan_args (p : plan) : Z * Z :=
   | PRev (BAll a) _ => (a, a)
   end.
 
+(* what the property demands of the arguments, independently of the generated chain: density and nnz
+   not both given, density in [0,1], the requested count inside [0, elements] (= the right-hand side of
+   Props.C19.random_plan_guards) *)
+Definition request_okb (dens : option dyadic) (nz : option Z) (el : Z) : bool :=
+  let dc := dcv (option_map density_class dens) in
+  let n := requested dens nz el in
+  (match dens, nz with Some _, Some _ => false | _, _ => true end)
+  && (0 <=? dc) && (dc <=? 1) && (0 <=? n) && (n <=? el).
+
+(* value comparisons (against the request, via Spec/NpCreate.v only) come first, so that a real failing
+   input is reported as such even when the generated chain has changed with it *)
 Definition judge_random (c : random_case) : Z :=
   let '(sh, dens, nz, fv, out) := c in
   let el := size sh in
-  match random_plan dens nz el, out with
-  | Raise _, None => 0
-  | Raise _, Some _ => 1
-  | Ok _, None => 1
-  | Ok (VTuple [VInt n; p]), Some (r, sampled, (otag, on, oN), same) =>
-    match decode_plan p with
-    | None => 6
-    | Some pl =>
-      let '(rsh, rco, rda, rfi) := r in
-      if negb (plan_okb n el (dcv (option_map density_class dens)) pl) then 6
-      else if negb (n =? requested dens nz el) then 6
-      else if negb (Z.of_nat (length rco) =? n) then 2
-      else if negb (canonicalb (raw_coo r)) then 3
-      else if negb (zl_eqb rsh sh && (rfi =? fv) && zl_eqb rda sampled) then 4
-      else if negb ((otag =? plan_tag pl) && (on =? fst (plan_args pl)) && (oN =? snd (plan_args pl))) then 5
-      else if negb same then 7 else 0
-    end
-  | Ok _, Some _ => 6
+  let okreq := request_okb dens nz el in
+  let n := requested dens nz el in
+  match out with
+  | None =>
+    if okreq then 1 else
+    match random_plan dens nz el with Raise _ => 0 | Ok _ => 6 end
+  | Some (r, sampled, (otag, on, oN), same) =>
+    let '(rsh, rco, rda, rfi) := r in
+    if negb okreq then 1
+    else if negb (Z.of_nat (length rco) =? n) then 2
+    else if negb (canonicalb (raw_coo r)) then 3
+    else if negb (zl_eqb rsh sh && (rfi =? fv) && zl_eqb rda (sampler_output sampled)) then 4
+    else if negb same then 7
+    else
+      match random_plan dens nz el with
+      | Ok (VTuple [VInt n'; p]) =>
+        match decode_plan p with
+        | None => 6
+        | Some pl =>
+          if negb (plan_okb n' el (dcv (option_map density_class dens)) pl && (n' =? n)) then 6
+          else if negb ((otag =? plan_tag pl) && (on =? fst (plan_args pl)) && (oN =? snd (plan_args pl))) then 5
+          else 0
+        end
+      | _ => 6
+      end
   end.
 
 Definition tag_random (c : random_case) : Z :=
